@@ -395,6 +395,22 @@ def test_update():
 '''
 
 
+# fix means: afterwards the comparison holds - also when the observed value is an instance of ANOTHER class that is handled by the same adapter (the callee has to change too)
+XCLASS_HDR = ("from dataclasses import dataclass\nfrom collections import namedtuple\nimport attrs\nfrom inline_snapshot import snapshot\n\n\n@dataclass\nclass Point:\n    x: int\n    y: int = 0\n\n\n"
+              "@dataclass\nclass Point3:\n    x: int\n    y: int = 0\n    z: int = 0\n\n\nNT = namedtuple('NT', 'a b')\nNT2 = namedtuple('NT2', 'a b')\n\n\n@attrs.define\nclass AT:\n    a: int\n\n\n@attrs.define\nclass AT2:\n    a: int\n\n\n")
+XCLASS = ["Point3(x=1, y=5) == snapshot(Point(x=1, y=5))", "Point3(x=1, y=6, z=2) == snapshot(Point(x=1, y=5))", "NT2(1, 2) == snapshot(NT(a=1, b=2))", "AT2(a=3) == snapshot(AT(a=3))",
+          "[Point(x=1), Point3(x=2)] == snapshot([Point(x=1), Point(x=2)])", "{'p': Point3(x=1)} == snapshot({'p': Point(x=1)})", "Point(x=1) == snapshot(Point3(x=1))"]
+
+
+def run_xclass(expr):
+    from .. import driver
+    src = XCLASS_HDR + f"def test_a():\n    assert {expr}\n"
+    r1 = driver.run_inproc({"test_a.py": src}, ("fix",))
+    after = r1["files"]["test_a.py"].decode()
+    r2 = driver.run_inproc({"test_a.py": after}, ())
+    return {"after": after, "exc": r1["session_exc"] or r2["session_exc"] or r2["module_exc"], "tests2": [(t[1], t[2][:200]) for t in r2["tests"]]}
+
+
 def run(ctx: Ctx):
     ctx.coverage["rule"] = (
         "single call sites: previous source (none / atom / list / nested dict, leaves canonical or hand-written) x 0-5 comparisons of one operation kind "
@@ -444,6 +460,12 @@ def run(ctx: Ctx):
     # C: constructor calls (dataclass): fix is reported iff the comparison fails; Model/CallAssign.v
     from .. import callassign as ca
     ca.check_part(ctx, 150 if not ctx.thorough else 2000, "C05")
+    for expr, o in zip(XCLASS, pmap(run_xclass, XCLASS, chunksize=1)):
+        ctx.count(("xclass", expr), True)
+        if o["exc"] or any(t[1] != "ok" for t in o["tests2"]):
+            ctx.report(f"C05 oracle: `assert {expr}` fails (the observed value is an instance of another class), fix is approved, and afterwards the comparison still fails: "
+                       f"{o['exc'] or o['tests2']}; written: {o['after'].splitlines()[-1].strip()}", {"kind": "xclass", "expr": expr})
+    ctx.coverage["oracle"]["other_class_same_adapter"] = len(XCLASS)
     # dict displays (observed keys in any order, several new keys): fix makes the comparison hold, the other categories keep the value; Model/DictAssign.v
     from .. import dictassign as da
     da.check_part(ctx, 150 if not ctx.thorough else 2000, "C05")
@@ -478,6 +500,10 @@ def replay(ctx: Ctx, data):
         o = run_never_corpus(data["case"]["source"])
         print(o)
         return not o.get("error") and o["before"] == o["after"]
+    if isinstance(data.get("case"), dict) and data["case"].get("kind") == "xclass":
+        o = run_xclass(data["case"]["expr"])
+        print(o)
+        return not o["exc"] and all(t[1] == "ok" for t in o["tests2"])
     if isinstance(data.get("case"), dict) and data["case"].get("kind") == "twins":
         from .. import twins
         return twins.replay(data["case"])
